@@ -71,6 +71,7 @@ Upstream(s)   == P.req[s]
 TopLevel      == {s \in Stages : P.parent[s] = ""}
 Children(s)   == {c \in Stages : P.parent[c] = s}
 Kids(s, ph)   == {c \in Children(s) : P.owner[c] = ph}                \* synthetic children the builder creates
+First(s, ph)  == {c \in Kids(s, ph) : P.req[c] = {}}                   \* is_initial(): children may be chained among themselves
 InOrder(S)    == SelectSeq(P.stages, LAMBDA x : x \in S)       \* a set of stages in store order
 Downstream(s) == {d \in Stages : s \in P.req[d]}
 Initial       == {s \in TopLevel : P.req[s] = {}}
@@ -438,8 +439,8 @@ StartStageAddChild ==   \* _plan_stage: the builder's before-stages are inserted
 
 (* handlers/start_stage/orchestration.py:_collect_start_messages *)
 StartMsgs(s) ==
-  LET bef == Kids(s, "BEFORE") \cap DOMAIN st'   \* evaluated in the plan step: children exist by then
-      aft == Kids(s, "AFTER") \cap DOMAIN st'
+  LET bef == First(s, "BEFORE") \cap DOMAIN st'   \* evaluated in the plan step: children exist by then
+      aft == First(s, "AFTER") \cap DOMAIN st'
   IN IF bef # {} THEN Map(StartStageM, InOrder(bef))
      ELSE IF TasksOf(s) # <<>> THEN <<StartTaskM(TasksOf(s)[1])>>
      ELSE IF aft # {} THEN Map(StartStageM, InOrder(aft))
@@ -625,7 +626,7 @@ CompleteStage ==
   /\ wk.kids = <<>>
   /\ LET s == Cur.s ds == DetermineStatus(s)
          aft == Kids(s, "AFTER")
-         aftEx == aft \cap DOMAIN st
+         aftEx == First(s, "AFTER") \cap DOMAIN st       \* (first_after_stages(): the handler looks at the initial ones only)
          \* after-stage handling: status complete & not halting, or everything but the (untouched) after-stages done
          handleAfter == \/ ds \in (Complete \ Halt)
                         \/ (ds = "RUNNING" /\ aftEx # {} /\ {st[c].status : c \in aftEx} = {"NOT_STARTED"} /\ CoreDone(s))
@@ -710,7 +711,7 @@ ContinueParent ==
          K == Kids(s, ph) \cap DOMAIN st
          anyHalt == \E c \in K : st[c].status \in Halt
          allDone == \A c \in K : st[c].status \in Continuable
-         aftNS == {c \in Kids(s, "AFTER") \cap DOMAIN st : st[c].status = "NOT_STARTED"}
+         aftNS == {c \in First(s, "AFTER") \cap DOMAIN st : st[c].status = "NOT_STARTED"}
      IN
      IF anyHalt \/ (~allDone /\ Cur.rc >= MaxStageWait)
      THEN IF CanTransition(st[s].status, "TERMINAL")
@@ -730,7 +731,7 @@ ContinueParent ==
      ELSE IF TasksOf(s) # <<>>
      THEN /\ Commit(<<StartTaskM(TasksOf(s)[1])>>, TRUE) /\ SetWk("hdone") /\ Label("ContinueParentStartTask")
           /\ UNCHANGED <<wf, st, tk, dlq, claims, ledger, gh, cnt>>
-     ELSE IF Kids(s, "AFTER") \cap DOMAIN st # {}
+     ELSE IF First(s, "AFTER") \cap DOMAIN st # {}
      THEN IF aftNS # {}
           THEN /\ Commit(Map(StartStageM, InOrder(aftNS)), TRUE) /\ SetWk("hdone") /\ Label("ContinueParentStartAfter")
                /\ UNCHANGED <<wf, st, tk, dlq, claims, ledger, gh, cnt>>
